@@ -694,6 +694,16 @@ func cmdCheck(args []string) int {
 	fmt.Printf("verif: built instrumented scratch copy (%d sites) in %.1fs\n", sc.sites, buildS)
 	tc := tierFor(prop, tier)
 	wi := worlds[pi.World]
+	var detInfo map[string]any
+	if tier == "thorough" && os.Getenv("VERIF_SKIP_SELFTEST") == "" {
+		execs, bad, missing, _ := selftest(sc, prop, 12, true)
+		detInfo = map[string]any{"seeds": 12, "plans_per_seed": 40, "executions": execs, "divergent": bad, "missing_or_failed": missing, "compared": "complete event logs under GOMAXPROCS 1/4/16 (World A: plain and race binary)"}
+		fmt.Printf("verif: determinism self-test executions=%d divergent=%d missing=%d\n", execs, bad, missing)
+		if bad > 0 || missing > 0 {
+			fmt.Fprintf(os.Stderr, "INFRASTRUCTURE: determinism self-test failed (%d divergent, %d missing): replay cannot be trusted\n", bad, missing)
+			return 2
+		}
+	}
 
 	type wjob struct {
 		variant string
@@ -887,6 +897,7 @@ func cmdCheck(args []string) int {
 			"known_findings_printed":    knownPrinted,
 			"infrastructure_problems":   infra,
 			"build_s":                   buildS,
+			"determinism_selftest":      detInfo,
 		},
 		"assumptions": []string{
 			"sampling, not enumeration: a clean batch is evidence, not proof",
@@ -1032,12 +1043,20 @@ func cmdSelftest(args []string) int {
 	if v := os.Getenv("VERIF_SELFTEST_SEEDS"); v != "" {
 		nSeeds, _ = strconv.Atoi(v)
 	}
-	type key struct {
-		seed int
-		rep  int
+	execs, bad, missing, sample := selftest(sc, prop, nSeeds, true)
+	fmt.Printf("sample: seed=7000 %v\n", sample)
+	fmt.Printf("selftest determinism property=%s seeds=%d executions=%d divergent=%d missing-or-failed=%d\n", prop, nSeeds, execs, bad, missing)
+	if bad > 0 || missing > 0 {
+		return 2
 	}
+	return 0
+}
+
+// selftest runs the same worker seeds under GOMAXPROCS 1/4/16 (World A: plain and
+// race binary) and compares the complete event logs.
+func selftest(sc *scratch, prop string, nSeeds int, verbose bool) (execs, bad, missing int, sample map[string]string) {
 	variants := []string{"plain"}
-	if sc.bins["race"] != "" {
+	if sc.bins["race"] != "" && prop == "C11" {
 		variants = append(variants, "race")
 	}
 	procs := []string{"1", "4", "16"}
@@ -1045,7 +1064,6 @@ func cmdSelftest(args []string) int {
 	var mu sync.Mutex
 	sem := make(chan struct{}, 16)
 	var wg sync.WaitGroup
-	bad := 0
 	for s := 0; s < nSeeds; s++ {
 		for rep, gp := range procs {
 			for _, variant := range variants {
@@ -1086,29 +1104,18 @@ func cmdSelftest(args []string) int {
 		uniq := map[string]bool{}
 		for _, v := range sums[s] {
 			uniq[v] = true
-		}
-		if len(uniq) != 1 {
-			bad++
-			fmt.Printf("NONDETERMINISM seed=%d: %v\n", 7000+s, sums[s])
-		}
-	}
-	missing := 0
-	for s := 0; s < nSeeds; s++ {
-		for _, v := range sums[s] {
 			if strings.HasPrefix(v, "missing") || strings.Contains(v, "worker failed") {
 				missing++
 			}
 		}
+		if len(uniq) != 1 {
+			bad++
+			if verbose {
+				fmt.Printf("NONDETERMINISM seed=%d: %v\n", 7000+s, sums[s])
+			}
+		}
 	}
-	fmt.Printf("sample: seed=7000 %v\n", sums[0])
-	fmt.Printf("selftest determinism property=%s seeds=%d executions=%d divergent=%d missing-or-failed=%d\n", prop, nSeeds, nSeeds*len(procs)*len(variants), bad, missing)
-	if missing > 0 {
-		return 2
-	}
-	if bad > 0 {
-		return 2
-	}
-	return 0
+	return nSeeds * len(procs) * len(variants), bad, missing, sums[0]
 }
 
 var _ = io.Discard
